@@ -1,25 +1,54 @@
 CHECK = {
     "lean_module": "MidnightZK.Props.C19",
     "harness": "h-c19",
-    "translators": [],
+    "translators": ["c19_base64"],
     "level": "proof",
-    "technique": "Lean 4 proof of a certificate checker (derivative matcher = denotational language; bisimulation certificate sound for all words) + translation validation: the proved checker is run on every compiled and shipped automaton; base64/parser rows proved against executable models tied by correspondence",
+    "technique": "Lean 4 proof of a certificate checker (derivative matcher = denotational language; bisimulation "
+                 "certificate sound for all words) + translation validation: the proved checker is run on every "
+                 "compiled and shipped automaton, over a structural corpus of every ordered pair/triple of combinator "
+                 "heads and two random streams; in-circuit parser: Lean emitter of lookup / loaded table / region rows "
+                 "and copy constraints compared cell by cell with the real synthesis, theorem layout-satisfiable <=> run; "
+                 "base64: arithmetic decoding proved against RFC 4648 encoding, table and constants regenerated from "
+                 "the Rust sources by a translator",
     "rule": "one `equiv` request per generated regular expression (real combinators, internal tree dumped by a "
             "hook, compiled Automaton dumped): the Lean checker decides language equality for ALL words; "
-            "non-trivial when the automaton has >1 state; distinctness by hash of the request line",
+            "non-trivial when the automaton has >1 state; distinctness by hash of the request line. Expressions: "
+            "(a) fixed structural corpus first in every tier: cat(A,B), star(cat(A,B)), union(A,B), cat(A,cat(B,C)) "
+            "for every ordered pair (17x17) / triple (quick: 8x8x8, thorough+search: 17x17x17) of heads {byte, word, "
+            "class, star, plus, optional, repeat, repeat_at_most, union, inter, minus, neg, separated list, spaced "
+            "separated list, delimited, mark, mark_bytes} around words of length 1, 2, 3 over {a,b,c}; (b) the "
+            "uniform random stream over all public combinators (depth 1..5) and a concatenation-heavy stream in which "
+            "iterations of multi-byte words occur at every depth; (c) the distribution `concat-pair[source]:L>R` of "
+            "(head of left factor, head of right factor) over every Concat node of the dumped trees is in the "
+            "evidence. The corpus reports at most 8 language differences with their distinguishing word (the rest is "
+            "counted). The correspondence is deliberately tight on: the internal tree of every combinator, the "
+            "loaded lookup table (as a multiset, order-insensitive), every cell and copy constraint of the parsing "
+            "region, the serialization bytes",
     "explanation": "Kernel-checked soundness of a certificate checker (bisimulation between the compiled automaton "
                    "and the Brzozowski-derivative automaton of the reference semantics); the checker is run on every "
-                   "generated expression and on the shipped serialized automata; base64 and the in-circuit parser are "
-                   "compared with executable models on exhaustive length/padding/corruption sweeps",
+                   "generated expression and on the shipped serialized automata. In-circuit parser: the lookup "
+                   "argument, the loaded table (dummy row, transition rows, final-state sentinel rows with letter 256, "
+                   "padding) and the rows of the region `parsing layout` with their copy constraints (initial state "
+                   "pinned to a constant, letters copied from the input, next states and markers free, sentinel letter "
+                   "256 / output 0 / last state 0 pinned) are emitted by the Lean model from the automaton alone and "
+                   "compared with what MockProver holds after the real synthesis (compiled automata, random automata, "
+                   "the shipped Jwt automaton); `parse_layout_iff_run` proves that this layout is satisfiable for an "
+                   "input and an output column iff the automaton accepts with exactly these markers. Base64: decoding "
+                   "proved against the RFC 4648 encoder for every byte string; BASE64_TABLE, ALT_PAD, B64_PAD, the "
+                   "url substitutions and the sentinel letter are regenerated from the sources and re-proved equal to "
+                   "the model's on every run; exhaustive length/padding/corruption sweeps under MockProver. "
+                   "Serialization: round trip proved; every truncation of small automata and every value of the 16 "
+                   "scalar header bytes decoded by the real deserializer and by the model",
     "trusted_base": [
         "compiled Lean code of the checker run (the theorem checkEquiv_sound is about the function; its execution is trusted to the Lean compiler/runtime)",
         "the hook Regex::verif_dump prints the internal tree faithfully",
-        "MockProver as the judge of satisfiability for the in-circuit half",
+        "MockProver as the judge of satisfiability for the in-circuit half, and as the source of the assignment table / permutation that the structural comparison reads",
+        "the harness reads the lookup, table columns and permutation cycles of the real constraint system correctly (harness/c19/src/trace.rs)",
     ],
-    "level_text": "Kernel-checked Lean theorems: derivative matcher = denotational language (marker-unifying intersection, complement), soundness of the all-words equivalence checker (automaton vs expression, automaton vs automaton), serialization round trip, base64 arithmetic decoding; translation validation of every compiled and shipped automaton on every run",
-    "level_note": "Trusted: Lean kernel; Lean compiler/runtime for the checker run; the correspondence harness. Regex compilation itself is not modelled (validated per instance, for all words)",
+    "level_text": "Kernel-checked Lean theorems: derivative matcher = denotational language (marker-unifying intersection, complement), soundness of the all-words equivalence checker (automaton vs expression, automaton vs automaton), serialization round trip, in-circuit parser layout (pinned / copied / free cells, table with sentinel rows) satisfiable iff the automaton accepts with exactly these markers, base64 arithmetic decoding with the table regenerated from the sources; translation validation of every compiled and shipped automaton on every run, over a structural corpus of all ordered pairs / triples of combinator heads",
+    "level_note": "Trusted: Lean kernel; Lean compiler/runtime for the checker run; the correspondence harness; MockProver. Regex compilation itself (determinisation, minimisation, concat/repeat constructions) is not modelled: it is validated per instance, for all words. The parser theorem is about one automaton in the table (the collection of several automata with disjoint state ranges is only exercised with one automaton); variable-length base64 and the two-entry lookup wiring of Base64Chip are compared by verdict and output only; the circuit is lenient on non-canonical trailing bits and on '+', '/' in url mode (stated as theorems, documented behaviour)",
     "assumptions": [
         "bytes are < 256 (u8)",
     ],
-    "timeout": {"quick": 600, "thorough": 2400, "search": 600},
+    "timeout": {"quick": 900, "thorough": 3000, "search": 900},
 }
